@@ -2,3 +2,4 @@ import Driver.Util
 import Driver.Tags
 import Driver.Proto
 import Driver.Frame
+import Driver.Cmd
